@@ -466,6 +466,7 @@ func runC17(rc *RunCtx) {
 	}
 	c17SmallOrderings(rc)
 	c17DuplicateAtEveryValue(rc)
+	c17DuplicateWhateverTheValues(rc)
 	if rc.Shard == 0 {
 		c17ChecksumCollisions(rc)
 	}
@@ -575,6 +576,123 @@ func c17DuplicateAtEveryValue(rc *RunCtx) {
 				if shape == 0 && verr != nil {
 					rc.Report(Violation{Props: []string{"C17"}, Monitor: "validate/collision", Sig: "C17:validate-rejects-distinct-keys:" + strings.Split(name, "(")[0],
 						Detail: "Validate rejected a genesis whose entries all have distinct keys: " + verr.Error(), Case: c17Case(gs)})
+				}
+			}
+		}
+	}
+}
+
+// c17DuplicateWhateverTheValues: two entries under one key are a duplicate whatever else they carry - an absent (nil) /
+// zero / negative / huge amount, an empty local token, an empty or short address, equal or different values - in either
+// order, adjacent or with another entry in between, at the head, in the middle or at the tail of the list; the same
+// entries under distinct keys are accepted. Through the struct and through the JSON entry point.
+func c17DuplicateWhateverTheValues(rc *RunCtx) {
+	if rc.Shard != 1%rc.NShards {
+		return
+	}
+	huge, _ := sdkmath.NewIntFromString("115792089237316195423570985008687907853269984665640564039457584007913129639935")
+	amounts := []sdkmath.Int{{}, sdkmath.ZeroInt(), sdkmath.NewInt(100), sdkmath.NewInt(-5), huge}
+	texts := []string{"", "uusdc", "UUSDC"}
+	addrs := [][]byte{nil, {}, make([]byte, 32), Messenger(0, 0), Messenger(0, 0)[:20]}
+	type variant struct {
+		name string
+		n    int
+		put  func(gs *ct.GenesisState, key, val int)
+	}
+	variants := []variant{
+		{"burn-limits", len(amounts), func(gs *ct.GenesisState, key, val int) {
+			gs.PerMessageBurnLimitList = append(gs.PerMessageBurnLimitList, ct.PerMessageBurnLimit{Denom: []string{"uusdc", "ueure", "uother"}[key], Amount: amounts[val]})
+		}},
+		{"pairs", len(texts), func(gs *ct.GenesisState, key, val int) {
+			gs.TokenPairList = append(gs.TokenPairList, ct.TokenPair{RemoteDomain: uint32(30 + key), RemoteToken: Token(1), LocalToken: texts[val]})
+		}},
+		{"messengers", len(addrs), func(gs *ct.GenesisState, key, val int) {
+			gs.TokenMessengerList = append(gs.TokenMessengerList, ct.RemoteTokenMessenger{DomainId: uint32(30 + key), Address: addrs[val]})
+		}},
+	}
+	for _, v := range variants {
+		for a := 0; a < v.n; a++ {
+			for b := 0; b < v.n; b++ {
+				for shape := 0; shape < 6; shape++ {
+					gs := StdGenesis()
+					gs.PerMessageBurnLimitList, gs.TokenPairList, gs.TokenMessengerList = nil, nil, nil
+					dup := shape > 0
+					switch shape {
+					case 0: // distinct keys
+						v.put(gs, 0, a)
+						v.put(gs, 1, b)
+					case 1:
+						v.put(gs, 0, a)
+						v.put(gs, 0, b)
+					case 2:
+						v.put(gs, 0, a)
+						v.put(gs, 1, (a+1)%v.n)
+						v.put(gs, 0, b)
+					case 3:
+						v.put(gs, 1, 1%v.n)
+						v.put(gs, 0, a)
+						v.put(gs, 0, b)
+					case 4:
+						v.put(gs, 1, 1%v.n)
+						v.put(gs, 0, a)
+						v.put(gs, 2, 2%v.n)
+						v.put(gs, 0, b)
+					case 5:
+						v.put(gs, 0, a)
+						v.put(gs, 0, b)
+						v.put(gs, 1, 1%v.n)
+						v.put(gs, 2, 2%v.n)
+					}
+					for _, route := range []string{"struct", "json", "json-amount-absent"} {
+						var verr error
+						var bz []byte
+						if route != "struct" {
+							func() {
+								defer func() { _ = recover() }()
+								if jsonCdc() != nil {
+									bz, _ = jsonCdc().MarshalJSON(gs)
+								}
+							}()
+							if route == "json-amount-absent" {
+								if !strings.Contains(string(bz), `,"amount":"0"`) {
+									continue
+								}
+								bz = []byte(strings.ReplaceAll(string(bz), `,"amount":"0"`, ""))
+							}
+							if len(bz) == 0 {
+								route = "json-unavailable"
+							}
+						}
+						func() {
+							defer func() {
+								if p := recover(); p != nil {
+									verr = fmt.Errorf("panic: %v", p)
+									rc.Report(Violation{Props: []string{"C20", "C17"}, Monitor: "crash-tap/recover", Sig: "panic:GenesisState.Validate", Detail: fmt.Sprint(p), Case: c17Case(gs)})
+								}
+							}()
+							switch route {
+							case "struct":
+								verr = gs.Validate()
+							case "json", "json-amount-absent":
+								verr = cctp.AppModuleBasic{}.ValidateGenesis(jsonCdc(), nil, bz)
+							}
+						}()
+						if route == "json-unavailable" {
+							rc.Cov.Cell("C17_duplicate_whatever_values", v.name+"/json-unavailable")
+							continue
+						}
+						rc.Cov.Evaluations++
+						rc.Cov.Assert("C17.collision-implies-reject")
+						rc.Cov.Cell("C17_duplicate_whatever_values", fmt.Sprintf("%s/%s/dup=%v/accepted=%v", v.name, route, dup, verr == nil))
+						if dup && verr == nil {
+							rc.Report(Violation{Props: []string{"C17"}, Monitor: "validate/collision", Sig: "C17:validate-accepts-duplicate:" + v.name,
+								Detail: fmt.Sprintf("Validate (%s route) accepted a genesis in which two entries of %s occupy one key (value classes %d and %d, shape %d)", route, v.name, a, b, shape), Case: c17Case(gs)})
+						}
+						if !dup && verr != nil {
+							rc.Report(Violation{Props: []string{"C17"}, Monitor: "validate/collision", Sig: "C17:validate-rejects-distinct-keys:" + v.name,
+								Detail: "Validate rejected a genesis whose entries all have distinct keys: " + verr.Error(), Case: c17Case(gs)})
+						}
+					}
 				}
 			}
 		}
